@@ -163,7 +163,52 @@ def eval_vector(case):
     return {'v': v, 'nt': tuple(case), 'out': f'{len(adms)}-partitions'}
 
 
-REPLAY = {'vectors': eval_vector}
+def eval_reload(case):
+    """history on ONE topology object: it holds model A and is partitioned; then model B is loaded into it (from text or from a
+    file) and it is partitioned again - the partitions are partitions of what it holds NOW"""
+    how, choice_a, choice_b = case
+    v = []
+    world.reset_all()
+    ta, ida = build_site('A', workers=1)
+    arm_a = ta.as_arm()
+    for e, c in zip(elements(ida, 0), ('LC@d1', 'none', choice_a, 'none')):
+        annotate(arm_a, e, c, pool_tag=e)
+    tb, idb = build_site('B', workers=2, facility=True, second_switch=True)
+    arm_b = tb.as_arm()
+    for e, c in zip(elements(idb, 1), ('LC@d2', 'none', choice_b, 'none', 'LC@d2', 'none')):
+        annotate(arm_b, e, c, pool_tag=e)
+    text_b = tb.serialize()
+    ids_a = set(Raw(ta.graph_model.graph_id).nodes)
+    ids_b = set(Raw(tb.graph_model.graph_id).nodes)
+    ctx = f'[load via {how}; A: port {choice_a}; B: port {choice_b}]'
+    try:
+        first = ta.as_arm().generate_adms()
+        if how == 'string':
+            ta.load(graph_string=text_b)
+        else:
+            import tempfile
+            with tempfile.NamedTemporaryFile('w', suffix='.graphml', encoding='utf-8') as f:
+                f.write(text_b)
+                f.flush()
+                ta.load(file_name=f.name)
+        second = ta.as_arm().generate_adms()
+    except Exception as e:
+        v.append((f'reload/raises/{type(e).__name__}', f'{e} {ctx}'))
+        return {'v': v, 'nt': tuple(case), 'out': 'raise'}
+    want_ids = set()
+    for n, d in Raw(ta.graph_model.graph_id).nodes.items():
+        for t2 in (LAB, CAP):
+            want_ids |= set(entries_of(d, t2))
+    if set(second) != want_ids:
+        v.append(('reload/partition-ids', f'after loading B the partitions are for {sorted(second)}, B names {sorted(want_ids)} {ctx}'))
+    for did, adm in second.items():
+        got = set(Raw(adm.graph_id).nodes)
+        if got - ids_b:
+            v.append(('reload/partition-of-the-previous-model', f'partition {did} holds {sorted(got - ids_b)[:4]}..., which are not elements of the loaded model {ctx}'))
+    return {'v': v, 'nt': tuple(case), 'out': f'{len(second)}-partitions-after-reload'}
+
+
+REPLAY = {'vectors': eval_vector, 'reload': eval_reload}
 
 
 def run(report):
@@ -178,5 +223,8 @@ def run(report):
                            'worker, a facility and an inter-switch link) x EVERY vector of per-element delegation choices over the '
                            'delegable elements (none, label-only, capacity-only, both, other id, mixed ids, two ids on one node, pool '
                            'definition, pool reference); each returned model judged on 7 clauses from raw snapshots')
+    explore_cases(report, 'reload', eval_reload,
+                  [(how, a, b) for how in ('string', 'file') for a in ('none', 'LC@d1', 'L@d1') for b in ('none', 'LC@d2', 'LC@d1')], chunk=2,
+                  rule='one topology object: partition model A, load model B into it (text | file), partition again')
     report.require(g['outcomes'].get('2-partitions', 0) > 0 and g['outcomes'].get('1-partitions', 0) > 0, 'one and two partitions')
     report.assumptions.append('extra kept nodes are allowed by the statement and not flagged; in-memory backend as the property states')
